@@ -253,14 +253,9 @@ Qed.
 Definition same_frame (a b : cmd) : Prop :=
   c_subs a = c_subs b /\ c_short_flag a = c_short_flag b /\ c_short_flag_aliases a = c_short_flag_aliases b.
 
-Lemma built_child x s : s_built (c_set x) = false -> s_built (c_gset x) = false ->
-  In s (c_subs (build_self x)) ->
-  s_built (c_set s) = false /\ s_built (c_gset s) = false /\
-  ((exists s0, In s0 (c_subs x) /\ same_frame s s0 /\
-               s_built (c_set s) = s_built (c_set s0) /\ s_built (c_gset s) = s_built (c_gset s0))
-   \/ (c_subs s = [] /\ nsf s))
-  -> True.
-Proof. auto. Qed.
+Lemma c_subs_bs_mark c : c_subs (bs_mark c) = c_subs c. Proof. reflexivity. Qed.
+Lemma c_subs_bs_deprecated c : c_subs (bs_deprecated c) = c_subs c. Proof. reflexivity. Qed.
+Lemma c_subs_bs_args c : c_subs (bs_args c) = c_subs c. Proof. reflexivity. Qed.
 
 Lemma subs_build_self x : s_built (c_set x) = false ->
   forall s, In s (c_subs (build_self x)) ->
@@ -270,8 +265,7 @@ Lemma subs_build_self x : s_built (c_set x) = false ->
   \/ (c_subs s = [] /\ nsf s /\ s_built (c_set s) = s_built (c_gset x) /\ s_built (c_gset s) = s_built (c_gset x)).
 Proof.
   intros Hb s. unfold build_self. rewrite Hb.
-  change (c_subs (bs_mark (bs_deprecated (bs_args (bs_globals (bs_help_version (bs_propagate (bs_settings x))))))))
-    with (c_subs (bs_globals (bs_help_version (bs_propagate (bs_settings x))))).
+  rewrite c_subs_bs_mark, c_subs_bs_deprecated, c_subs_bs_args.
   set (x1 := bs_settings x).
   assert (Hx1 : c_subs x1 = c_subs x /\ c_gset x1 = c_gset x).
   { subst x1. unfold bs_settings.
